@@ -11,16 +11,16 @@
     by middlewares). A call causes one RUN of the core handler per invocation of `next` by a
     message middleware. Where a holder comes from (`Alloc`) and when a batch context is made
     (`atEntry`: by `HandleRequest`; `atCore`: by `handleRequest`) are parameters: `Impl.go` is the
-    code of today, `Impl.fixed` the proposed repair; the engine `placemw` determines them on the
-    real code by probing.
+    code of today (both, since 4b5c841), `Impl.entryOnly` the code before that repair; the engine
+    `placemw` determines them on the real code by probing.
   WHAT IS PROVED (sections 4-6): with fresh allocation the scoping invariants `InvC` / `InvE` hold in
   every reachable world, and
-    - `atCore`: every run of every call observes exactly what it observes on an empty holder
-      (`C15_full`), whatever all other calls do;
-    - the code of today (`atEntry` only): every CALL is isolated from every other call
+    - `atCore` — THE CODE OF TODAY (`C15_full_go`): every run of every call observes exactly what it
+      observes on an empty holder (`C15_full`), whatever all other calls do;
+    - the code before 4b5c841 (`atEntry` only): every CALL is isolated from every other call
       (`request_scoped`, hence the full property when no message middleware re-invokes `next`:
-      `noninterference`), but the runs of one call share a holder: `C15_full Impl.go` is FALSE
-      (`C15_full_false_go` — reported as a finding);
+      `noninterference`), but the runs of one call share a holder: `C15_full Impl.entryOnly` is
+      FALSE (`C15_full_false_entry_only` — this was finding `place:run-not-empty-at-start`);
     - every hypothesis is needed: `reuse_leaks_nested`, `global_leaks_sequential`,
       `global_reset_leaks_interleaved`.
   Values: `0` is the empty string.
@@ -165,7 +165,7 @@ theorem scoping_invariant_core (impl : Impl) (hf : impl.alloc = .fresh) (hc : im
     simp only [runWorld]
     exact ih _ (InvC_step impl hf hc w q s h)
 
-/-- 4b. the code of today (`atEntry` only), fresh allocation: in every reachable world the holders
+/-- 4b. the code before 4b5c841 (`atEntry` only), fresh allocation: in every reachable world the holders
     made by `HandleRequest` are allocated and pairwise distinct, and the context a request's handlers
     hold reaches the holder of their own request — even when it is nested in another request's. -/
 theorem scoping_invariant_entry (impl : Impl) (hf : impl.alloc = .fresh) (he : impl.atEntry = true)
@@ -201,10 +201,13 @@ theorem C15_full_of_fresh_core (impl : Impl) (hf : impl.alloc = .fresh) (hc : im
   rw [runWorld_core_start impl hf hc i sched World.init p (runsSteps runs) InvC_init
     (wellStarted_runs _ _) hp, expectCore_runs]
 
-/-- 5b. … in particular for the proposed repair. -/
-theorem C15_full_fixed : C15_full Impl.fixed := C15_full_of_fresh_core _ rfl rfl
+/-- 5b. THE CODE OF TODAY (`Impl.go`: fresh allocation, by `HandleRequest` and by the core handler)
+    has the full property. That the real code has these parameters is what engine `placemw` probes
+    on every run. -/
+theorem C15_full_go : C15_full Impl.go := C15_full_of_fresh_core _ rfl rfl
 
-/-- 5c. THE CODE OF TODAY: a call of `HandleRequest` is isolated from every other call — what it
+/-- 5c. THE CODE BEFORE 4b5c841 (batch context made by `HandleRequest` only; also what remains true
+    if the core handler's own context were dropped again): a call of `HandleRequest` is isolated from every other call — what it
     observes is what its runs, one after the other ON ONE HOLDER that is empty when the call starts,
     observe; nothing any other call does (before, meanwhile, on the same connection, nested) shows. -/
 theorem request_scoped (impl : Impl) (hf : impl.alloc = .fresh) (he : impl.atEntry = true)
@@ -220,9 +223,10 @@ theorem request_scoped (impl : Impl) (hf : impl.alloc = .fresh) (he : impl.atEnt
   rfl
 
 /-- 5d. … and that is NOT the full property: a message middleware that calls `next` twice makes the
-    second run observe what the first one stored (`[.val 5]` instead of `[.val 0]`). Confirmed on the
-    real code (finding `place:run-not-empty-at-start`). -/
-theorem C15_full_false_go : ¬ C15_full Impl.go := by
+    second run observe what the first one stored (`[.val 5]` instead of `[.val 0]`). Was confirmed
+    on the real code before 4b5c841 (finding `place:run-not-empty-at-start`, repaired by that commit);
+    the check reports it again if the core handler stops making its own batch context. -/
+theorem C15_full_false_entry_only : ¬ C15_full Impl.entryOnly := by
   intro h
   have := h [prog (.conn 0) [⟨[], [.set 5]⟩, ⟨[], [.read]⟩]] _
     (seqSched_interleaving _ [] (by simp)) 0 (.conn 0) _ rfl
@@ -265,7 +269,7 @@ theorem noninterference (impl : Impl) (hf : impl.alloc = .fresh)
   rw [this, obs_eq_solo]
   simp
 
-/-- 4''. With the core handler allocating (`Impl.fixed`), also under message middlewares: a call
+/-- 4''. With the core handler allocating (`Impl.go`), also under message middlewares: a call
     whose chain executes the messages `msgs` (a retry: the same message several times; a
     substitution: other messages), each after deriving contexts, observes for each of them exactly
     what `execFull` says — whatever the other calls do. -/
@@ -292,7 +296,7 @@ theorem sequential (impl : Impl) (hf : impl.alloc = .fresh)
     i (by simpa using hi)
   simpa using this
 
-/-- 6. Never a foreign value, for the code of today and ANY chain of message middlewares: whatever
+/-- 6. Never a foreign value, for the entry-only code and ANY chain of message middlewares: whatever
     a call observes is `""` or a value that a run OF THE SAME CALL stored. -/
 theorem never_foreign (impl : Impl) (hf : impl.alloc = .fresh) (he : impl.atEntry = true)
     (hc : impl.atCore = false) (progs : List (List GStep)) (sched : List (Nat × GStep))
@@ -312,7 +316,7 @@ theorem never_foreign (impl : Impl) (hf : impl.alloc = .fresh) (he : impl.atEntr
     obtain ⟨l, ⟨rn, hrn, rfl⟩, hl⟩ := h
     exact ⟨rn, hrn, hl⟩
 
-/-- 6'. … and with the core handler allocating, by the same RUN. -/
+/-- 6'. … and with the core handler allocating (the code of today), by the same RUN. -/
 theorem never_foreign_run (impl : Impl) (hf : impl.alloc = .fresh) (hc : impl.atCore = true)
     (progs : List (List GStep)) (sched : List (Nat × GStep)) (h : Interleaving progs sched)
     (i : Nat) (p : Parent) (rn : Run) (hi : progs[i]? = some (prog p [rn])) (o : Obs)
@@ -426,24 +430,31 @@ def sched1 : List (Nat × GStep) :=
 
 example : obsOf 0 (runWorld Impl.go World.init sched1).2 = [.val 5] ∧
     obsOf 1 (runWorld Impl.go World.init sched1).2 = [.val 0, .val 9] ∧
-    (runWorld Impl.go World.init sched1).1.cur 1 = some [.batch 1, .batch 0, .other 0] := by decide
+    (runWorld Impl.go World.init sched1).1.cur 1
+      = some [.batch 3, .batch 2, .batch 1, .batch 0, .other 0] := by decide
+
+/-- the same before 4b5c841 (one batch context per call). -/
+example : obsOf 0 (runWorld Impl.entryOnly World.init sched1).2 = [.val 5] ∧
+    obsOf 1 (runWorld Impl.entryOnly World.init sched1).2 = [.val 0, .val 9] ∧
+    (runWorld Impl.entryOnly World.init sched1).1.cur 1 = some [.batch 1, .batch 0, .other 0] := by
+  decide
 
 /-- a call whose message middleware derives a context and retries: two runs of `[read, set 5]`.
-    The code of today: the second run reads 5. The repair: both runs read "". -/
+    The code of today: both runs read "". Before 4b5c841: the second run read 5. -/
 def retry : List GStep := prog (.conn 0) [⟨[], [.read, .set 5]⟩, ⟨[7], [.read, .set 5]⟩]
 
 example : retry = [.enter (.conn 0), .core, .act .read, .act (.set 5), .wrap 7, .core, .act .read,
     .act (.set 5)] := by decide
 
-example : obsOf 0 (runWorld Impl.go World.init (seqSched 0 [retry])).2 = [.val 0, .val 5] ∧
-    obsOf 0 (runWorld Impl.fixed World.init (seqSched 0 [retry])).2 = [.val 0, .val 0] ∧
+example : obsOf 0 (runWorld Impl.entryOnly World.init (seqSched 0 [retry])).2 = [.val 0, .val 5] ∧
+    obsOf 0 (runWorld Impl.go World.init (seqSched 0 [retry])).2 = [.val 0, .val 0] ∧
     soloRuns [⟨[], [.read, .set 5]⟩, ⟨[7], [.read, .set 5]⟩] = [0, 0] ∧
     sharedRuns [⟨[], [.read, .set 5]⟩, ⟨[7], [.read, .set 5]⟩] = [0, 5] := by decide
 
 /-- the invariants are not vacuous: four holders allocated (two calls, at entry and by the core),
     the handlers of the two requests holding one each. -/
-example : (runWorld Impl.fixed World.init sched1).1.heap.length = 4 ∧
-    ((runWorld Impl.fixed World.init sched1).1.cur 0).bind holder = some 1 ∧
-    ((runWorld Impl.fixed World.init sched1).1.cur 1).bind holder = some 3 := by decide
+example : (runWorld Impl.go World.init sched1).1.heap.length = 4 ∧
+    ((runWorld Impl.go World.init sched1).1.cur 0).bind holder = some 1 ∧
+    ((runWorld Impl.go World.init sched1).1.cur 1).bind holder = some 3 := by decide
 
 end Kmip.C15
